@@ -34,7 +34,7 @@ def P(level, qc, qn, qs, tc, tn, ts, shards=16, **kw):
 
 # coverage-guided slice (libFuzzer target src/fz_ops.cpp driving the property's own generator): (seconds, workers, scale)
 FUZZ_SLICE = {"quick": (12, 8, 700), "thorough": (420, 16, 1000)}  # scale is capped by the plan's scale
-FUZZ_PROPS = ("C01", "C02", "C03", "C04", "C05", "C06", "C07", "C08", "C09", "C13", "C17")
+FUZZ_PROPS = ("C01", "C02", "C03", "C04", "C05", "C06", "C07", "C08", "C09", "C11", "C13", "C17")
 
 
 PLANS = {
